@@ -198,6 +198,11 @@ func RunC02(env *sim.Env) {
 		calls = append(calls, call{"GetTemplate", p, ""})
 	}
 	calls = append(calls, call{"Parse", victim, src})
+	if t.Choose(4) == 3 {
+		// the same source under a name that contains a '%' (names are data, not format strings)
+		calls = append(calls, call{"Parse", "/pct-50%off.jet", src})
+		env.Stat("probe:template_name_with_percent_sign", 1)
+	}
 	// the victim first half of the time (so its failure is seen before it is cached anywhere)
 	if t.Choose(2) == 1 {
 		calls[0], calls[len(calls)-1] = calls[len(calls)-1], calls[0]
